@@ -247,6 +247,10 @@ def realise_simple(rec, herr_active):
     tables = base_tables()
     b = eff_base(f)
     basefont = pick(STD14, v) if f["kind"] == "Std14" else "VERIFY+Custom%d" % (v % 7)
+    if f.get("bname") == "tagstd":
+        basefont = pick(["ABCDEF+Helvetica", "QWERTY+Times-Roman", "ZZZZZZ+Courier-Bold", "ABCDEF+Symbol"], v)
+    elif f.get("bname") == "near":
+        basefont = pick(["Helvetica-Foo", "helvetica", "Times", "Helvetica+ABCDEF", "ABCDE+Helvetica", "abcdef+Helvetica"], v)
     metrics = None
     if f["kind"] == "Std14":
         from pdfminer.fontmetrics import FONT_METRICS
@@ -578,7 +582,7 @@ def font_summary(f):
     return "%s%s enc=%s/%s diff=%s tu=%s ent=%s fc=%s widths=%s(%s) mw=%s fm=%s" % (
         f["kind"], "+FontFile(StandardEncoding)" if f.get("std") else ("+FontFile" if f["file"] else ""), f["enc"], f["base"], [x["v"] if x["t"] == "int" else x["g"] for x in f["diff"]], f["tu"],
         [(e["c"], e["g"]) for e in f["ent"]], f["fc"], f["widths"],
-        f.get("wform", "direct") + "/LastChar " + f.get("lc", "consistent") + "/ToUnicode as " + f.get("tuform", "bfchar"), f["mw"], f["fm"])
+f.get("bname", "custom") + " name/" + f.get("wform", "direct") + "/LastChar " + f.get("lc", "consistent") + "/ToUnicode as " + f.get("tuform", "bfchar"), f["mw"], f["fm"])
 
 
 # =============================================================================================== extended coverage: CFF
